@@ -45,5 +45,7 @@ theorem struct_format_eq (u : Usage13) (es : List Elt) (h : u.fam ≠ .display) 
 
 theorem text_calcsize_src : C04.textCalcsizeSrc = Pinned.textCalcsizeSrc := by rfl
 theorem ebcdic_calcsize_src : C04.ebcdicCalcsizeSrc = Pinned.ebcdicCalcsizeSrc := by rfl
+/-- `COBOL_EBCDIC_Sheet.set_schema`, the function `Facade.EFile.setSchema` was written from. -/
+theorem set_schema_src : C04.setSchemaSrc = Pinned.setSchemaSrc := by rfl
 
 end Stingray.Tie.C04
